@@ -45,7 +45,7 @@ MS_GOOD = {"p1": "v1", "p2": "v0", "p3": "v2"}
 def env(follower=False, d=(1, 2), strat="asc", ms=None, fail=(), logfail=()):
     return {"follower": follower, "dmin": d[0], "dmax": d[1], "strat": strat, "ms": dict(ms or MS_GOOD),
             "paths": PATHS, "blocks": BLOCKS, "fail": list(fail), "logfail": [list(x) for x in logfail],
-            "deferred": False}
+            "deferred": False, "getfail": []}
 
 
 def sharded(cids=("m1", "d1", "s1", "s2")):
@@ -105,6 +105,11 @@ def directed(rng):
     fsteps = [pin("c3", PLAIN), pin("c2", PLAIN), {"op": "unpin", "cid": "c2"}, {"op": "unpin", "cid": "m1"},
               {"op": "update", "from": "c2", "to": "c3", "o": PLAIN}, pin("c3", with_dim(PLAIN, "upd", "c2")),
               {"op": "pinpath", "path": "/ipfs/ok3", "o": PLAIN}, {"op": "unpinpath", "path": "/ipns/okm"}]
+    # the same writes through the RPC endpoints (REST API, adder, other peers), incl. a typed pin as the adder sends it
+    fsteps += [dict(c, via="rpc") for c in fsteps if c["op"] in ("pin", "unpin", "pinpath", "unpinpath")]
+    fsteps.append({"op": "rpcpin", "p": {"cid": "c3", "type": "data", "mode": "rec", "depth": -1, "rmin": 1, "rmax": 2,
+                                          "allocs": ["p3"], "name": "adder", "exp": "none", "meta": [], "orig": [], "ua": [],
+                                          "upd": "", "ref": ""}})
     return out, fsteps
 
 
@@ -197,14 +202,18 @@ def real_scripts(ctx, rng):
         # and no origins: a pin with origins does not survive raft's msgpack log entry (listed under C08)
         return [dict(e, orig=[]) for e in h["pre"] if e["type"] == "data"]
     extra = rng.sample(hs, 4 if ctx.quick() else 80)
-    for backend in ("raft", "crdt"):
+    # raft-noretry: commit_retries = 0 (valid; what a configuration without the key yields): one attempt, no retry
+    for backend in ("raft", "raft-noretry", "crdt"):
         for init, sigs in WANT_NOW.items():
             for sig in sigs:
                 h = by.get((init, sig))
                 if h is None:
                     raise vcheck.Infra("TLC did not emit the history %r" % sig)
+                # the first histories of a backend start from an empty pinset (nothing to set up through the component
+                # under test): those that do not involve the update source c2
+                empty = init == 0 and "UD" not in sig.split()
                 out.append({"src": "real:" + backend, "backend": backend, "env": dict(h["env"], deferred=False),
-                            "pre": pre(h), "steps": calls(h)})
+                            "pre": [] if empty else pre(h), "steps": calls(h)})
         for h in extra:
             if any(label(c) == "UM" for c in h["steps"]):
                 continue
@@ -439,7 +448,7 @@ def validate(ctx, trace, scripts, transcription=True):
     else:
         ctx.extra["real_backend_tuples_checked_by_tlc"] = v["n"]
         ctx.extra["real_backend_steps"] = dict((b, sum(1 for x in recs if x["src"] == "real:" + b))
-                                               for b in ("raft", "crdt", "crdt-batch"))
+                                               for b in ("raft", "raft-noretry", "crdt", "crdt-batch"))
     for i in sorted(bad):
         rec = recs[i - 1]
         what = ("pinset after %s does not match what the statement requires (ok=%s err=%s)"
